@@ -150,3 +150,45 @@ func c20DrillNil(r *core.Report) {
 		}
 	})
 }
+
+// c20DefaultGate: document validation visits values (defaults, examples) against schemas that it
+// has not finished validating; the recursion rule's invariant "a validated schema does not include
+// itself through composition" does not cover them yet.
+func c20DefaultGate(r *core.Report) {
+	p := r.Prog
+	info := p.Pkg("openapi3").TypesInfo
+	r.RunRule("C20.defaultgate", "no value is visited against a schema graph that may still contain a composition cycle: in Schema.validate every call that checks a value against the schema (VisitJSON, validateExampleValue) stands after a test that no schema reachable from it — through properties, items and additionalProperties as well as through the compositions — includes itself through oneOf/anyOf/allOf/not (a call of reachesCompositionCycle whose true branch returns) — the schema's own composition check and the `stack` of ancestors do not cover a property of an ancestor that is still waiting to be validated, and visiting a default through such a property recursed until the stack overflowed", 2, func() {
+		fd := p.DeclOf("openapi3", "Schema.validate")
+		n := 0
+		ast.Inspect(fd.Body, func(nd ast.Node) bool {
+			c, ok := nd.(*ast.CallExpr)
+			if !ok {
+				return true
+			}
+			f := core.CalleeOf(info, c)
+			if f == nil || (f.Name() != "VisitJSON" && f.Name() != "visitJSON" && f.Name() != "validateExampleValue") {
+				return true
+			}
+			n++
+			gated := false
+			for _, a := range core.Atoms(core.GuardsAt(info, fd.Body, c)) {
+				if a.Pos {
+					continue
+				}
+				ast.Inspect(a.Expr, func(m ast.Node) bool {
+					if cc, ok := m.(*ast.CallExpr); ok {
+						if g := core.CalleeOf(info, cc); g != nil && g.Name() == "reachesCompositionCycle" {
+							gated = true
+						}
+					}
+					return true
+				})
+			}
+			r.Check(gated, fmt.Sprintf("defaultgate:%s#%d", f.Name(), n), p.Pos(c.Pos()), "after the test for a composition cycle below", "Schema.validate checks a value with "+f.Name()+" without having tested that no schema below includes itself through composition: a default that leads through a not yet validated property of an ancestor into such a schema makes document validation recurse until the stack overflows")
+			return true
+		})
+		if n == 0 {
+			core.Fail("Schema.validate: no value check found (default / example expected)")
+		}
+	})
+}
